@@ -471,15 +471,11 @@ def rule_recorded_best_is_the_selection(eng, rep, rule="C18-4b.recorded-best-poi
             inner = val.args[0] if isinstance(val, ast.Call) and val.args and ekey(val.func).split(".")[-1] in ("remove_scaling", "copy", "float") else val
             if isinstance(val, ast.Call) and isinstance(val.func, ast.Attribute) and val.func.attr == "copy" and not val.args:
                 inner = val.func.value
-            okc = False
-            if isinstance(inner, ast.Name):
-                for dn in cfg.defs_reaching(eng.prog.stmt_of(node) if id(node) in getattr(eng.prog, "parent", {}) else st, inner.id) if False else cfg.defs_reaching(st, inner.id):
-                    ds = cfg.ast_of(dn)
-                    if isinstance(ds, ast.Assign) and isinstance(ds.targets[0], (ast.Tuple, ast.List)) and isinstance(ds.value, ast.Call) and id(ds.value) in eng.res.calls \
-                            and any(t.fid == "model.Model.get_final_results" for t in eng.res.calls[id(ds.value)].targets):
-                        names = assigned_names(ds.targets[0])
-                        okc = inner.id in names and names.index(inner.id) == want[name]
-                        seen[name] = dn
+            from .common import tuple_position_from_call
+            got = tuple_position_from_call(eng, cfg, st, inner, {"model.Model.get_final_results"})
+            okc = got is not None and got[0] == want[name]
+            if got is not None:
+                seen[name] = got[1]
             site = eng.where(si, st)
             if okc:
                 rep.ok(rule, site, "column '%s' records position %d of get_final_results() (the better of saved point and incumbent)" % (name, want[name]))
